@@ -28,6 +28,7 @@ def generate(rng: random.Random, tier: str):
         cases.append({'kind': 'd3', 'flavour': rng.choice(['random', 'grid']), 'seed': rng.randrange(1 << 30)})
     for _ in range(60 if thorough else 12):
         cases.append({'kind': 'separable', 'seed': rng.randrange(1 << 30)})
+        cases.append({'kind': 'layout', 'pattern': rng.choice(['chain', 'chain', 'random']), 'seed': rng.randrange(1 << 30)})
     return cases
 
 
@@ -253,6 +254,61 @@ def run_separable(case, drv) -> Outcome:
     return Outcome(key=('separable', n1, n0, case['seed'] % 97), viol=viol, branches=['separable'], sample=case)
 
 
+def run_layout(case, drv) -> Outcome:
+    """partially broadcast trajectories (each of kz, ky, kx varies along its own subset of k2, k1, k0): isotropic scaling by a scales
+    the weights by |a|^d (d = number of directions with an extent), and a layout in which every direction is coupled to another one
+    through some dimension is the Voronoi tessellation of all points - the same weights as for the dense form of the trajectory"""
+    warnings.filterwarnings('ignore')
+    rng = random.Random(case['seed'])
+    n = [rng.randint(3, 5), rng.randint(3, 5), rng.randint(3, 6)]  # k2, k1, k0
+    if case['pattern'] == 'chain':
+        # e.g. radial phase encoding with an oblique readout: k2,k1 couple (kz, ky), k0 couples (ky, kx)
+        order = rng.sample(range(3), 3)
+        subsets = [None, None, None]
+        subsets[order[0]] = [0, 1]
+        subsets[order[1]] = [0, 1, 2]
+        subsets[order[2]] = [2]
+    else:
+        subsets = [sorted(rng.sample(range(3), rng.randint(0, 3))) for _ in range(3)]
+    comps = []
+    for sub in subsets:
+        shape = [1, *[n[d] if d in sub else 1 for d in range(3)]]
+        t = torch.tensor([rng.uniform(-8, 8) for _ in range(math.prod(shape))], dtype=torch.float32).reshape(shape)
+        comps.append(t if sub else torch.zeros(1, 1, 1, 1))
+    d_enc = sum(1 for sub in subsets if sub)
+    # a direction that is the only one varying along some dimension and also varies along another dimension: the library multiplies a
+    # 1-D weight along the first dimension with whatever it computes along the second (known finding: counted twice)
+    double = any(len(sub) >= 2 and any(all(d not in other for j, other in enumerate(subsets) if j != i) for d in sub) for i, sub in enumerate(subsets))
+    tag = 'double-counted' if double else case['pattern']
+    cfg = f'layout {case["pattern"]} sizes (k2,k1,k0) {n} kz along {subsets[0]} ky along {subsets[1]} kx along {subsets[2]}'
+    st, w = call(lambda: dcf_of(*comps))
+    if st != 'ok':
+        return Outcome(key=('layout-raises', cfg), viol={'signature': 'dcf:layout:raises', 'what': f'{cfg}: from_traj_voronoi raises {w}'})
+    viol = None
+    if not bool(torch.isfinite(w).all()) or float(w.min()) <= 0:
+        viol = {'signature': 'dcf:layout:positive', 'what': f'{cfg}: weights are not positive and finite'}
+    a = rng.choice([2.0, 0.5, -2.0])
+    st2, w2 = call(lambda: dcf_of(*[a * c for c in comps]))
+    if viol is None and st2 == 'ok' and not torch.allclose(w2, abs(a) ** d_enc * w, rtol=1e-3):
+        ratio = float((w2 / w).median())
+        viol = {'signature': f'dcf:layout:scale:{tag}', 'what': f'{cfg}: scaling k-space by {a} scales the weights by {ratio:.4g}, expected |a|^{d_enc} = {abs(a) ** d_enc:.4g}'}
+    # every direction coupled to another one through some dimension -> joint tessellation of all points = the dense form
+    coupled = set()
+    for dim in range(3):
+        along = [i for i, sub in enumerate(subsets) if dim in sub]
+        if len(along) > 1:
+            coupled |= set(along)
+    if viol is None and d_enc >= 2 and coupled == {i for i, sub in enumerate(subsets) if sub}:
+        used = {d for sub in subsets for d in sub}  # (a dimension along which nothing varies would only repeat every point)
+        full = [1, *[n[d] if d in used else 1 for d in range(3)]]
+        dense = [c.expand(full).clone() if sub else c for c, sub in zip(comps, subsets, strict=True)]
+        st3, w3 = call(lambda: dcf_of(*dense))
+        if st3 == 'ok' and not torch.allclose(w.expand(w3.shape), w3, rtol=1e-3, atol=1e-6 * float(w3.max())):
+            viol = {'signature': f'dcf:layout:dense:{tag}', 'what': f'{cfg}: the weights of the broadcast form differ from those of the dense form of the same trajectory '
+                                                     f'(max rel dev {float(((w.expand(w3.shape) - w3).abs() / w3).max()):.3g})'}
+    return Outcome(key=('layout', case['pattern'], tuple(map(tuple, subsets)), tuple(n)), viol=viol, branches=[f'layout:{case["pattern"]}', f'layout-d:{d_enc}'], sample={**case, 'subsets': subsets})
+
+
 def run_glue(case, drv) -> Outcome:
     """dcf_2d3d_voronoi against the Lean model `M.dcfGlue` of everything around the Voronoi volumes: the cell volumes of the unique
     positions are computed here with scipy exactly as the library documents it (bounding corners at 10x the extent, shoelace formula /
@@ -314,4 +370,4 @@ def run_glue(case, drv) -> Outcome:
 def run(case, drv) -> Outcome:
     if case['kind'] == 'glue':
         return run_glue(case, drv)
-    return {'d1': run_d1, 'd2': run_d2, 'd3': run_d3, 'separable': run_separable}[case['kind']](case, drv)
+    return {'d1': run_d1, 'd2': run_d2, 'd3': run_d3, 'separable': run_separable, 'layout': run_layout}[case['kind']](case, drv)
